@@ -466,7 +466,7 @@ def run_shard(spec, rec):
     from vf.c10child import build as build_kinetic
 
     for i in range(spec["n"]):
-        case = c02.fix_groups(S.gen_case(rng, features={"nnls": False}))
+        case = c02.fix_groups(S.gen_case(rng, features={"nnls": False}, layouts=("mg", "gm", "mg_f", "gm_f")))
         jc = S.jsonable_case(case)
 
         def builder(jc=jc):
